@@ -12,7 +12,8 @@
          sord_eq    In a l -> In b l -> start_cmp a b = Eq -> a = b                      (pairwise distinct keys)
          sord_anti  In a l -> In b l -> (start_cmp a b = Lt <-> start_cmp b a = Gt)
          sord_trans In a,b,c l -> start_cmp a b = Lt -> start_cmp b c = Lt -> start_cmp a c = Lt.
-       StartOrder_of_CmpSpec: StartOrder l follows from `CmpSpec tr_cmp` and pairwise distinct (depth, trace) keys.
+       StartOrder_of_CmpSpec: StartOrder l follows from `CmpSpec tr_cmp` and pairwise distinct (depth, trace, pending ids) keys
+       (the pending ids were added to the key by fix F16).
        run_from_states_order_independent: for oracles ord1 ord2 with Permutation (ord_i starts) starts, the whole
        value returned by run_from_states (rolled-back system, verdict / error trace / statuses / collected states,
        strategy state incl. ss_checked and statistics) is the same.
@@ -56,12 +57,12 @@ Open Scope N_scope.
 (* ================================================================================================ *)
 
 Section O1.
-  Context {T SE PS : Type}.
+  Context {T SE : Type} (so : @store_ops T SE) {PS : Type}.
   Variable tr_cmp : list (logentry T) -> list (logentry T) -> comparison.
   Notation mcstate := (@mcstate T SE PS).
-  Notation start_cmp := (@start_cmp T SE PS tr_cmp).
-  Notation insert_stable := (@insert_stable T SE PS tr_cmp).
-  Notation sort_starts := (@sort_starts T SE PS tr_cmp).
+  Notation start_cmp := (@start_cmp T SE so PS tr_cmp).
+  Notation insert_stable := (@insert_stable T SE so PS tr_cmp).
+  Notation sort_starts := (@sort_starts T SE so PS tr_cmp).
 
   Definition slt (a b : mcstate) : Prop := start_cmp a b = Lt.
 
@@ -222,16 +223,21 @@ Section O1.
   Qed.
 
   (* the hypotheses of sort_starts_perm hold as soon as tr_cmp is a lawful total order on traces (it is the order
-     of the Debug renderings) and the states of l have pairwise distinct keys (depth, trace) *)
+     of the Debug renderings) and the states of l have pairwise distinct keys (depth, trace, ids of pending events) *)
   Lemma StartOrder_of_CmpSpec (l : list mcstate) :
     CmpSpec tr_cmp ->
-    (forall a b, In a l -> In b l -> st_depth a = st_depth b -> st_trace a = st_trace b -> a = b) ->
+    (forall a b, In a l -> In b l -> st_depth a = st_depth b -> st_trace a = st_trace b ->
+                 pending_ids so a = pending_ids so b -> a = b) ->
     StartOrder l.
   Proof.
-    intros CS Hkey. split.
+    intros CS0 Hkey.
+    assert (CS : CmpSpec (cmp_pair tr_cmp (cmp_list N.compare))).
+    { apply CmpSpec_pair; [exact CS0 | apply CmpSpec_list; exact CmpSpec_N]. }
+    split.
     - intros a b Ha Hb. unfold McRun.start_cmp.
       destruct (N.compare (st_depth a) (st_depth b)) eqn:Hd; try discriminate.
-      intros Ht. apply N.compare_eq in Hd. apply (cmp_eq _ CS) in Ht. apply Hkey; assumption.
+      intros Ht. apply N.compare_eq in Hd. apply (cmp_eq _ CS) in Ht. unfold start_key in Ht.
+      injection Ht as Ht1 Ht2. apply Hkey; assumption.
     - intros a b _ _. unfold McRun.start_cmp.
       rewrite (N.compare_antisym (st_depth a) (st_depth b)).
       destruct (N.compare (st_depth a) (st_depth b)) eqn:Hd; cbn [CompOpp].
@@ -271,13 +277,13 @@ Section O1Run.
      collected states, and the strategy state with ss_checked = the order of predicate evaluations and the
      statistics) is the same for any two iteration orders of the HashSet of start states. *)
   Corollary run_from_states_order_independent (ord1 ord2 : list mcstate -> list mcstate) cf pr sys cb starts :
-    StartOrder tr_cmp starts -> NoDup starts ->
+    StartOrder so tr_cmp starts -> NoDup starts ->
     Permutation (ord1 starts) starts -> Permutation (ord2 starts) starts ->
     run_from_states ord1 cf pr sys cb starts = run_from_states ord2 cf pr sys cb starts.
   Proof.
     intros Hord Hnd Hp1 Hp2. unfold McRun.run_from_states.
-    rewrite (sort_starts_perm tr_cmp starts (ord1 starts) Hord Hnd Hp1).
-    rewrite (sort_starts_perm tr_cmp starts (ord2 starts) Hord Hnd Hp2).
+    rewrite (sort_starts_perm so tr_cmp starts (ord1 starts) Hord Hnd Hp1).
+    rewrite (sort_starts_perm so tr_cmp starts (ord2 starts) Hord Hnd Hp2).
     reflexivity.
   Qed.
 End O1Run.
